@@ -130,6 +130,8 @@ M: List[Tuple[str, str, str, str, str]] = [
      "'request_path': text_(self.request.path, errors='replace'),", "'request_path': text_(self.request.path),"),
     ('c10-revert-undecodable-target-fix', 'C10', 'proxy/http/proxy/server.py',
      "'request_path': text_(self.request.path, errors='replace'),", "'request_path': text_(self.request.path),"),
+    ('c07-revert-upstream-write-failure-flush', 'C07', 'proxy/http/handler.py',
+     "                if self.selector is None and self.work.has_buffer():\n                    self.must_flush_before_shutdown = True\n                    return False\n", ""),
     # ---- C14 ---------------------------------------------------------------
     ('c14-default-port-8080', 'C14', 'proxy/http/parser/parser.py',
      "                    if self._url.port is not None else DEFAULT_HTTP_PORT",
